@@ -172,7 +172,10 @@ func (r *rw) expr(e ast.Expr) ast.Expr {
 				}
 				if p.Name == "time" {
 					switch s.Sel.Name {
-					case "Sleep", "After", "NewTimer", "Tick", "NewTicker", "AfterFunc":
+					case "Sleep", "After", "NewTimer":
+						// modelled: time passes instantly (a sleep is a yield, a timer has fired when it is looked at)
+						return r.vs(s.Sel.Name, x.Args...)
+					case "Tick", "NewTicker", "AfterFunc":
 						r.fail(x.Pos(), "time."+s.Sel.Name+" in an instrumented file is not modelled by vsched")
 					}
 				}
